@@ -48,7 +48,7 @@ def pregen():
     from vlib import core
     sys.path.insert(0, os.path.join(core.ROOT, "translators"))
     import armlib
-    return armlib.pregen(PROP, [("opassign_arms", "theories/Proofs/OpAssignArmsP.vo")])
+    return armlib.pregen(PROP, [("opassign_arms", "theories/Proofs/OpAssignKernelSemP.vo")])
 
 
 # ---- values -----------------------------------------------------------------
